@@ -110,12 +110,13 @@ DeliverRes(m) ==
           ELSE /\ rcache' = [rcache EXCEPT ![p] = Append(@, m)]
                /\ UNCHANGED <<cur, ph, stg, lockq, calls, hreq, seq, tmo, full>>
 
-(* A rejection reaches p's waiting Update call and the context of that call ends in the instant in which the call has  *)
+(* A response reaches p's waiting Update call and the context of that call ends in the instant in which the call has   *)
 (* taken the response from its receiver (before Update returns).  The response was received, so no request timed out:  *)
-(* the call reports the rejection and discards its staged update exactly as without the cancellation                    *)
-(* (updateGeneric -> checkUpdateError -> DiscardUpdate); tmo stays as it is.                                            *)
+(* the call completes exactly as without the cancellation - a rejection is reported and the staged update discarded    *)
+(* (updateGeneric -> checkUpdateError -> DiscardUpdate), an acceptance is added and the update enabled (AddSig,        *)
+(* enableNotifyUpdate: the machine does not look at the context); tmo stays as it is.                                  *)
 DeliverResLate(m) ==
-  /\ m.t = "rej" /\ m \in net /\ WaitingCall(Peer(m.from), m.st.ver) # {}
+  /\ m.t \in {"acc", "rej"} /\ m \in net /\ WaitingCall(Peer(m.from), m.st.ver) # {}
   /\ DeliverRes(m)
 
 (* the user's handler answers *)
